@@ -528,6 +528,44 @@ func genRefValue(t *Tape, f *rc.Field, ver int16, apiKey int16, depth int) any {
 	panic("genRefValue: kind " + f.Kind.String())
 }
 
+// marshalHistory: Unmarshal(Marshal(v)) before and after a failed Unmarshal.
+func marshalHistory(s *Sim, t *Tape, what string, ver int16, v any, fresh func() any) {
+	defer func() {
+		if r := recover(); r != nil {
+			s.Count("marshal-not-supported")
+		}
+	}()
+	enc, err := protocol.Marshal(ver, reflect.ValueOf(v).Elem().Interface())
+	if err != nil || len(enc) < 2 {
+		s.Count("marshal-not-supported")
+		return
+	}
+	a := fresh()
+	errA := protocol.Unmarshal(enc, ver, a)
+	failed := 0
+	for i := 0; i < 3; i++ {
+		if protocol.Unmarshal(enc[:t.Intn("work", len(enc))], ver, fresh()) != nil {
+			failed++
+		}
+	}
+	c := fresh()
+	errC := protocol.Unmarshal(enc, ver, c)
+	s.Count("marshal-history-checked")
+	if failed > 0 {
+		s.Count("marshal-after-failed-decode")
+	}
+	if fmt.Sprint(errA) != fmt.Sprint(errC) || (errA == nil && !reflect.DeepEqual(a, c)) {
+		s.Fail("C04", "R5-unmarshal-history", "%s: protocol.Unmarshal of the same %d bytes gave (%v) before and (%v) after %d failed decodes of truncated copies; values equal: %v", what, len(enc), errA, errC, failed, reflect.DeepEqual(a, c))
+	}
+	if errA == nil {
+		// and the decoded value encodes to the same bytes
+		enc2, err := protocol.Marshal(ver, reflect.ValueOf(a).Elem().Interface())
+		if err != nil || !bytes.Equal(enc, enc2) {
+			s.Fail("C04", "R5-marshal-roundtrip", "%s: Marshal(Unmarshal(Marshal(v))) differs from Marshal(v) (%d vs %d bytes, error %v)", what, len(enc), len(enc2), err)
+		}
+	}
+}
+
 func fieldsScenario(s *Sim, params map[string]string) {
 	t := s.T
 	n := NewNet(s)
@@ -722,6 +760,14 @@ func fieldsScenario(s *Sim, params map[string]string) {
 		// exactly one frame consumed: the connection is still aligned
 		if _, err := negotiate(); err != nil {
 			s.Fail("C04", "R4-frame-consumption", "%s: the exchange after a response with %d unknown tagged fields failed: %v", what, len(unknownTags), err)
+		}
+		// protocol.Marshal / Unmarshal (behind kafka.Marshal, Version.Unmarshal
+		// and the group metadata of Client.JoinGroup / SyncGroup) use pooled
+		// coders: decoding the same bytes gives the same value whether or not
+		// the previous decode on this goroutine failed
+		if key != 0 && key != 1 {
+			marshalHistory(s, t, what, ver, req, func() any { return pair.req() })
+			marshalHistory(s, t, what+" (response)", ver, res, func() any { return reflect.New(reflect.TypeOf(res).Elem()).Interface() })
 		}
 	})
 	s.DoneWhen(func() bool { return s.Actors() == 0 })
